@@ -5,7 +5,7 @@ and the documented expected output.  `fixed` entries must pass (a regression is 
 VIOLATION of the entry's property); `known` entries that still fail print a
 KNOWN-FINDING line and do not affect the exit status.
 """
-import os, json
+import os, re, json
 from . import util, runner
 
 KDIR = os.path.join(util.VERIF, "known")
@@ -47,6 +47,21 @@ def run_probe(flex, probe, workdir):
             return False, "generated scanner contains %r" % probe["gen_lacks"]
         if probe.get("gen_has") and probe["gen_has"] not in gtxt:
             return False, "generated scanner lacks %r" % probe["gen_has"]
+    if probe.get("own_linedirs"):
+        # every line directive naming the output file sits just above the line it names
+        try:
+            glines = open(out, "rb").read().split(b"\n")
+        except OSError:
+            glines = []
+        seen = 0
+        for n, l in enumerate(glines, 1):
+            m = re.match(rb'#line (\d+) "(.*)"$', l)
+            if m and m.group(2).decode("latin1") == out:
+                seen += 1
+                if int(m.group(1)) != n + 1:
+                    return False, "line %d of the output file says %r" % (n, l.decode("latin1"))
+        if not seen:
+            return False, "no line directive names the output file"
     for fname, text in probe.get("files_lack", []):
         try:
             ftxt = open(os.path.join(workdir, fname), "rb").read().decode("latin1")
